@@ -963,6 +963,12 @@ func (w *w2) judgeFailoverContinuity() {
 			if (!quiet && first.code != 25) || first.tInvoke-last.tRet > S/2 {
 				continue
 			}
+			if first.code == -1 && w.sim.Stats.FaultsFired["store.err"]+w.sim.Stats.FaultsFired["store.timeout"] > 0 {
+				// UNKNOWN_SERVER_ERROR after an injected store failure (the new coordinator could not read or
+				// write the group for this request): the member retries, it is not told to rejoin
+				w.sim.Probe("c15.continuity-unjudged-store-error")
+				continue
+			}
 			w.sim.Probe("c15.continuity-judged")
 			if first.code != 0 {
 				w.sim.Fail("C15", "member-must-rejoin-after-failover", "member %q of group %q heartbeated successfully at generation %d before the failover; its next heartbeat against the new coordinator got code %d", first.reqMember, first.group, first.reqGen, first.code)
